@@ -34,6 +34,49 @@ def check(run: Run) -> None:
     run.rule("C20.R5", "text->bytes step is total on str (Unicode-complete encode), not a per-character ord into a bytearray")
     ctx = TermCtx(m, max_depth=3)
     _check_function(run, ctx, fi, seen=set())
+    _check_list_fields(run, m)
+
+
+LIST_FIELDS = {"args", "keywords", "elts", "keys", "values", "body", "orelse", "generators", "ifs", "comparators", "ops", "posonlyargs", "kwonlyargs", "kw_defaults", "defaults", "targets", "names", "decorator_list", "handlers", "finalbody", "items"}
+
+
+def _check_list_fields(run: Run, m) -> None:
+    """ast.dump only descends into real lists: any other iterable in a list-typed field is rendered with repr()
+    (memory addresses), which makes the hash depend on the process."""
+    run.rule("C20.R6", "every AST the library constructs has real lists in list-typed fields (otherwise ast.dump prints repr() of the container, incl. addresses)")
+    ctx = TermCtx(m, max_depth=1)
+    n = 0
+    for fi in m.funcs.values():
+        fa = None
+        for c in calls_in(fi):
+            f = c.func
+            if not (isinstance(f, ast.Attribute) and isinstance(f.value, ast.Name) and f.value.id == "ast" and isinstance(getattr(ast, f.attr, None), type)):
+                continue
+            fields = list(getattr(getattr(ast, f.attr), "_fields", ()))
+            bound = {fields[i]: a for i, a in enumerate(c.args) if i < len(fields)}
+            bound.update({k.arg: k.value for k in c.keywords if k.arg})
+            for fld, arg in bound.items():
+                if fld not in LIST_FIELDS or (f.attr == "Dict" and False):
+                    continue
+                if f.attr in ("Attribute", "Constant", "Name"):
+                    continue
+                n += 1
+                fa = fa or ctx.analysis(fi)
+                if not fa.cfg.has_node(arg):
+                    continue
+                t = strip_sites(fa.term_of(arg))
+                bad = None
+                for a in (t[1] if t[0] == "phi" else [t]):
+                    if a[0] == "app" and a[1][0] == "attr" and a[1][2] in ("values", "keys", "items"):
+                        bad = f"a dict view (.{a[1][2]}())"
+                    elif a[0] == "comp" and a[1] in ("GeneratorExp", "SetComp", "DictComp"):
+                        bad = f"a {a[1]}"
+                    elif a[0] == "app" and a[1][0] == "global" and a[1][1] in ("builtins.map", "builtins.filter", "builtins.zip", "builtins.reversed", "builtins.iter", "builtins.set", "builtins.frozenset", "builtins.dict"):
+                        bad = f"{a[1][1].split('.')[-1]}(..)"
+                    elif a[0] in ("tuple", "set", "dict"):
+                        bad = f"a {a[0]} literal"
+                run.check(bad is None, "C20.R6", fi, stmt_of(c), f"ast.{f.attr}.{fld} receives a list", f"ast.{f.attr}({fld}=..) receives {bad}, not a list: ast.unparse still works, but ast.dump prints repr() of the container (object addresses), so calc_ast_hash of a query containing this node differs between builds and processes", "a list")
+    run.floor("C20.R6", n, 12, "list-typed constructor fields in the package")
 
 
 def _check_function(run: Run, ctx: TermCtx, fi: FuncInfo, seen) -> None:
